@@ -400,7 +400,7 @@ def decode_gates(fb, ctx):
     for n in ifs:
         c = strip(n["cond"])
         if c.get("k") == "binary" and c.get("op") == "And" and hirq.err_variant(n["then"]):
-            l, r = strip(c["a"]), strip(c["b"])
+            l, r = strip(c["a"]), hirq.expand_places(strip(c["b"]), hirq.place_lets(h))       # `let version = block.version;`
             mode_eq = l.get("k") == "binary" and l.get("op") == "Eq" and any((hirq.ctor_name(strip(x)) or "").endswith("PreviousSignatureHashing") for x in (l["a"], l["b"]))
             ver_ne = r.get("k") == "binary" and r.get("op") == "Ne" and find_all(r, lambda z: z.get("k") == "field" and z.get("name") == "version") and find_all(r, lambda z: (z.get("k") == "path" and (z["res"].get("path") or "").endswith("THIRD_PARTY_SIGNATURE_VERSION")) or (z.get("k") == "lit" and z.get("v") == 1))
             if mode_eq and ver_ne:
@@ -409,7 +409,8 @@ def decode_gates(fb, ctx):
     if g2:
         # the gate precedes the construction of the ExternalSignature in the same branch
         ex = [n for n in find_all(h["body"], lambda n: n.get("k") == "struct" and hirq.res_path(n["res"]).endswith("crypto::ExternalSignature"))]
-        ctx.check(bool(ex) and all(g2[0]["ln"] < e["ln"] for e in ex), "GATE", "version gate precedes the use of the external signature", "GATE|third-party-order", "ExternalSignature is built before the version gate", where)
+        pos_ = lambda n_: (n_["ln"], n_.get("ln0", 0))      # nodes inlined from a helper share the call's line: their own line breaks the tie
+        ctx.check(bool(ex) and all(pos_(g2[0]) < pos_(e) for e in ex), "GATE", "version gate precedes the use of the external signature", "GATE|third-party-order", "ExternalSignature is built before the version gate", where)
     # the proof is mandatory and both forms are understood
     pm = [m for m in hirq.matches_in(h["body"]) if "proof::Content" in (m.get("sty") or "")]
     kinds = {}
@@ -772,7 +773,8 @@ def wire_rules(fb, ctx):
             ctx.check(ok, "WIRE", f"deserialize: crypto::Block.{f} of {who} <- decoded {who}{suffix}", f"WIRE|deserialize|{who}|{f}", f"field depends on {sorted(lv)[:8]}", where_d)
     dh = fb.hir_of(db)
     ud = mcalls(dh["body"], r"Option::<T>::unwrap_or_default$")
-    ctx.check(len([u for u in ud if strip(u["recv"]).get("name") == "version"]) == 2, "WIRE", "deserialize: missing version reads as 0", "WIRE|deserialize|version-default", "version.unwrap_or_default() expected for authority and blocks", where_d)
+    pl_ = hirq.place_lets(dh)
+    ctx.check(len([u for u in ud if strip(hirq.expand_places(strip(u["recv"]), pl_)).get("name") == "version"]) == 2, "WIRE", "deserialize: missing version reads as 0", "WIRE|deserialize|version-default", "version.unwrap_or_default() expected for authority and blocks", where_d)
     top = [s for _, s in mirq.aggregates(db, r"format::SerializedBiscuit$")]
     if top:
         lv = mirq.operand_leaves(fb, db, mirq.agg_field(top[0], "root_key_id"))
